@@ -10,7 +10,7 @@ rows = ["| id | property | change (needs to manifest) | caught by (quick tier) |
 for f in sorted(glob.glob(os.path.join(HERE, "seeded", "*", "meta.json"))):
     m = json.load(open(f))
     fe = m.get("first_evaluation")
-    first = "same" if not fe else ("missed by " + ",".join(sorted(c for c, v in (fe.get("checks_run") or {}).items() if v["exit"] != 1)) + "; caught after strengthening (§9.5)")
+    first = "same" if (not fe or m["property"] in (fe.get("caught_by") or [])) else ("missed by " + (",".join(sorted(c for c, v in (fe.get("checks_run") or {}).items() if v["exit"] != 1)) or m["property"]) + "; caught after strengthening (§9.5)")
     mech = []
     for c in m.get("caught_by", []):
         ms = (m.get("checks_run", {}).get(c, {}).get("mechanisms") or [])[:2]
@@ -21,6 +21,6 @@ for f in sorted(glob.glob(os.path.join(HERE, "seeded", "*", "meta.json"))):
 table = "\n".join(rows)
 p = os.path.join(HERE, "DESIGN.md")
 s = open(p, encoding="utf-8").read()
-s2 = re.sub(r"(<!-- SEEDED-TABLE-BEGIN -->\n).*?(\n<!-- SEEDED-TABLE-END -->)", lambda m_: m_.group(1) + table + m_.group(2), s, flags=re.S)
+s2 = re.sub(r"(<!-- SEEDED-TABLE-BEGIN -->\n).*?(<!-- SEEDED-TABLE-END -->)", lambda m_: m_.group(1) + table + "\n" + m_.group(2), s, flags=re.S)
 open(p, "w", encoding="utf-8").write(s2)
 print(len(rows) - 2, "seeded changes in table")
